@@ -140,7 +140,7 @@ func build(s setup, dir string) (*vkit.World, string, error) {
 	}
 
 	conf := vkit.DefaultConf()
-	conf.Prototypes.Authenticators = []config.Mechanism{{ID: "anon", Type: "anonymous"}}
+	conf.Prototypes.Authenticators = []config.Mechanism{{ID: "anon", Type: "anonymous"}, {ID: "probe", Type: vkit.ProbeType}}
 	conf.Prototypes.Finalizers = []config.Mechanism{{ID: "jwt", Type: "jwt", Config: pc}}
 
 	w, err := vkit.NewWorld(vkit.WorldOpts{Conf: conf})
@@ -163,8 +163,14 @@ func build(s setup, dir string) (*vkit.World, string, error) {
 		ref["config"] = over
 	}
 
+	authn := config.MechanismConfig{"authenticator": "anon", "config": map[string]any{"subject": s.Subject}}
+	if s.Subject == "" {
+		// the anonymous authenticator replaces an empty subject by its default; the probe hands out the empty id
+		authn = config.MechanismConfig{"authenticator": "probe", "config": map[string]any{"subject": vkit.EmptySubject}}
+	}
+
 	err = w.Load("src", rulecfg.Rule{ID: "r", Matcher: rulecfg.Matcher{Routes: []rulecfg.Route{{Path: "/**"}}},
-		Execute: []config.MechanismConfig{{"authenticator": "anon", "config": map[string]any{"subject": s.Subject}}, ref}})
+		Execute: []config.MechanismConfig{authn, ref}})
 
 	return w, path, err
 }
@@ -316,6 +322,10 @@ var reservedClaimTemplates = []string{
 
 func genSetup(t *rapid.T) setup {
 	s := setup{Store: genKeyStore(t), Subject: "user-" + rapid.StringMatching("[a-z0-9]{1,6}").Draw(t, "subject")}
+	if rapid.IntRange(0, 7).Draw(t, "emptySubjectID") == 0 {
+		s.Subject = ""
+	}
+
 	s.Signer = rapid.SampledFrom([]string{"", "verif-issuer", "https://heimdall.example.com"}).Draw(t, "signer")
 	s.TTL = rapid.SampledFrom([]string{"", "2s", "7s", "90s", "15m", "2500ms"}).Draw(t, "ttl")
 	s.OverTTL = rapid.SampledFrom([]string{"", "", "3s", "1h"}).Draw(t, "overTTL")
@@ -404,6 +414,7 @@ func TestIssuedTokensVerifyAndCarrySystemClaims(t *testing.T) {
 		vkit.S.Eval()
 		vkit.S.Label(fmt.Sprintf("entries=%d", len(s.Store)))
 		vkit.S.LabelIf(s.KeyID != "", "key_selected_by_id")
+		vkit.S.LabelIf(s.Subject == "", "empty_subject_id")
 
 		effClaims := s.Claims
 		if s.OverClaim != "" {
